@@ -48,7 +48,7 @@ def make_seq_file(ck, rng, kind=None, equal=False, n=None, long=False):
 
 
 def gen_job(ck, rng):
-    k = rng.choice(["arr", "arr_equal", "rrwf", "rrwf", "rrwf_multi", "cmp", "rejected", "churn", "reread", "big_threads", "failed_read", "one_record"])
+    k = rng.choice(["arr", "arr_equal", "rrwf", "rrwf", "rrwf_multi", "cmp", "rejected", "churn", "churn", "reread", "reread", "big_threads", "failed_read", "one_record"])
     if k == "failed_read":
         g = ck.tmp(".txt")
         common.write_bytes(g, rng.choice(["hello world\nthis is not an alignment\n", "", "\n\n\n", "CLUSTAL W multiple sequence alignment\n\n"]))
@@ -67,7 +67,7 @@ def gen_job(ck, rng):
     if k == "churn":
         return Job(k, ["churn %d %d" % (rng.randint(1, 10 ** 6), rng.choice([200, 2000]))], [], {})
     if k in ("rrwf", "rrwf_multi", "big_threads", "reread"):
-        long_ = (k == "reread" and rng.random() < 0.4)
+        long_ = (k == "reread" and rng.random() < 0.6)
         kind, seqs = make_seq_file(ck, rng, n=rng.randint(100, 130) if k == "big_threads" else (rng.randint(2, 6) if long_ else None),
                                    equal=(k == "big_threads" and rng.random() < 0.5), long=long_)
         names = gen.names(rng, len(seqs), "s")
@@ -234,12 +234,15 @@ def run(ck, tier):
         if i % 3 == 2:
             jobs.append((asan, i, {}))
         else:
-            jobs.append((rel, i, {"MALLOC_PERTURB_": str([0, 85, 170, 255][i % 4])}))
+            # mostly without MALLOC_PERTURB_: glibc's perturbation also overwrites freed blocks and so erases exactly the stale data
+            # a history leaves behind; a fresh process then sees zero pages where the history sees recycled memory
+            pv = [None, None, None, "85", None, "170"][i % 6]
+            jobs.append((rel, i, {"MALLOC_PERTURB_": pv} if pv else {}))
     common.pmap(lambda j: run_history(ck, j[0], j[1], j[2], tier), jobs, workers=8)
     ck.rule = ("histories of 5..25 (thorough: ..60) jobs executed by one process with up to three msa-owning jobs interleaved operation by operation: kalign() on arrays (incl. "
                "equal-length sequences), read(1-2 files)->run->dump->write(fmt)->free, write->free->re-read, compare of two runs, rejected calls (type of the other kind, missing / unrecognisable / one-record input), "
                ">= 100 sequences with 8-16 threads, heap-churn jobs that leave patterned garbage in freed blocks; thread counts 64 -> 1 -> 8 and DNA <-> protein change from job to "
-               "job; -O2 build with allocation accounting and MALLOC_PERTURB_ in {0,85,170,255} and the ASan build. Each job is replayed alone in a fresh process; digests must "
+               "job; -O2 build with allocation accounting (mostly without MALLOC_PERTURB_, which would erase the stale heap contents a history leaves behind) and the ASan build. Each job is replayed alone in a fresh process; digests must "
                "be equal; live blocks after the last free must be 0. Distinct = (history, job).")
     ck.assumptions = ["MSF header line (time stamp, file base name) is masked before comparing written files", "allocations inside libgomp are not counted (the OpenMP runtime's own pool)"]
 
